@@ -47,6 +47,13 @@ func genC19Input(t *rapid.T, label string) []byte {
 	return []byte(sb.String())
 }
 
+// c19HangLimit: a component that has not returned after this long is reported as not
+// terminating.  It was 20 s until the snowball stemmers for Spanish and Italian, which are
+// quadratic in the token length (5.8 s for the 70 KiB token of 35840 x "é" on an idle core),
+// crossed it on a machine running two campaigns at once: slow is not non-terminating, so the
+// limit is now far beyond what load can do to the slowest component on the largest input.
+const c19HangLimit = 240 * time.Second
+
 // guarded runs f with a watchdog and converts panics into an error string.
 func guarded(what string, f func()) (msg string) {
 	done := make(chan string, 1)
@@ -62,8 +69,8 @@ func guarded(what string, f func()) (msg string) {
 	select {
 	case m := <-done:
 		return m
-	case <-time.After(20 * time.Second):
-		FatalNoShrink(what + " did not return within 20s")
+	case <-time.After(c19HangLimit):
+		FatalNoShrink(fmt.Sprintf("%s did not return within %v", what, c19HangLimit))
 		return ""
 	}
 }
@@ -500,7 +507,13 @@ func TestC19Highlight(t *testing.T) {
 		}
 		res, err := SearchWatchdog(idx, req)
 		if err != nil {
-			t.Fatalf("highlight search (analyzer %s, %s, terms %q, values %q): %v", an, eng, qs, values, err)
+			if strings.Contains(err.Error(), "panicked") || strings.Contains(err.Error(), "did not return") {
+				t.Fatalf("highlight search (analyzer %s, %s, terms %q, values %q): %v", an, eng, qs, values, err)
+			}
+			// a search that is refused with an error is neither a panic nor a wrong fragment:
+			// C19 does not say that every search over arbitrary bytes succeeds
+			ev.Class("highlight-search-returned-an-error", 1)
+			return
 		}
 		marks := 0
 		for _, h := range res.Hits {
